@@ -43,7 +43,7 @@ ASSUMPTIONS = [
 ]
 PROBES = ["one document walked twice with the same objects", "interleaved iterators of different documents", "iterator abandoned half-consumed", "call repeated later in history", "gc.collect step", "caching off", "eviction happened", "address policy rev", "address policy rand", "hash-seed re-execution", "cmap cache digest compared", "page replaces font under same resource name", "pages share font object", "page uses undefined font name", "direct font dictionary", "unpainted path at page end", "encrypted", "cjk-euc-h", "unknown-base-diffs-A", "no-encoding", "type0-shared-descendant-A", "type0-shared-descendant-B", "shared-diffs-A", "shared-diffs-B", "helvetica-custom-encoding", "repository sample"]
 TIERS = {
-    "quick": {"batches": 16, "runs": 14, "budget_s": 50},
+    "quick": {"batches": 16, "runs": 14, "budget_s": 150},
     "thorough": {"batches": 128, "runs": 120, "budget_s": 1200},
 }
 DETERMINISM_SLICE = 2
